@@ -355,8 +355,15 @@ def codec_tables(v):
                 texts.add(d.quantize(decimal.Decimal(10) ** -places).to_eng_string())
             except decimal.InvalidOperation:
                 pass
-    for z in ints:
+    float_of_int = []
+    for z in sorted(ints):
         texts.add(repr(z))
+        try:
+            f = float(z)
+            float_of_int.append([str(z), str(fbits(f))])
+            floats.add(fbits(f))
+        except OverflowError:
+            float_of_int.append([str(z), None])
     frepr, nstore = {}, {}
     for _ in range(4):
         for b in list(floats):
@@ -384,6 +391,7 @@ def codec_tables(v):
         'frepr': [[str(b), [ord(c) for c in r]] for b, r in sorted(frepr.items())],
         'nstore': [[[ord(c) for c in t], r] for t, r in sorted(nstore.items())],
         'float_of': float_of,
+        'float_of_int': float_of_int,
         'uuid': [[str(n), [ord(c) for c in str(uuid.UUID(int=n))]] for n in sorted(uuids)],
         'b64': [], 'pickle': [], 'json': [],
     }
@@ -653,11 +661,12 @@ def coq_tables(t):
         if r[0] == 'ok':
             return 'Ok (%s, %s)' % (slit(r[1]), coq_val(r[2]))
         return 'Raise %s' % coq_exn(r[1])
-    return ('{| t_frepr := [%s]; t_nstore := [%s]; t_float_of := [%s]; t_uuid := [%s]; t_b64 := [%s]; '
+    return ('{| t_frepr := [%s]; t_nstore := [%s]; t_float_of := [%s]; t_float_of_int := [%s]; t_uuid := [%s]; t_b64 := [%s]; '
             't_pickle := [%s]; t_json := [%s] |}' % (
                 '; '.join('(%s, %s)' % (nlit(b), slit(r)) for b, r in t['frepr']),
                 '; '.join('(%s, %s)' % (slit(x), nst(r)) for x, r in t['nstore']),
                 '; '.join('(%s, %s)' % (coq_val(d), nlit(f)) for d, f in t['float_of']),
+                '; '.join('(%s, %s)' % (zlit(z), 'None' if f is None else '(Some %s)' % nlit(f)) for z, f in t.get('float_of_int', [])),
                 '; '.join('(%s, %s)' % (nlit(n), slit(s)) for n, s in t['uuid']),
                 '; '.join('(%s, %s)' % (slit(b), slit(s)) for b, s in t['b64']),
                 '; '.join('(%s, %s, %s)' % (coq_val(v), slit(b), coq_val(w)) for v, b, w in t['pickle']),
@@ -673,11 +682,12 @@ def coq_case(c, o):
                coq_res_val(o.get('cache')), coq_res_val(o.get('found')), coq_res_val(o.get('foundby')),
                coq_res_val(o.get('sel')), coq_res_val(o.get('exp')), coq_res_val(o.get('fresh')),
                coq_res_val(o.get('selfresh'))))
-    return ('{| c_col := %s; c_val := %s; c_wp := %s; c_var := %s; c_decl := %s; c_indom := %s; c_tab := %s; c_obs := %s |}' % (
+    return ('{| c_col := %s; c_val := %s; c_wp := %s; c_var := %s; c_decl := %s; c_indom := %s; c_kindok := %s; c_tab := %s; c_obs := %s |}' % (
         coq_coltype(c['col']), coq_val(c['v']),
         {'create': 'WCreate', 'setattr': 'WSetattr', 'set': 'WSet'}[c['wp']],
         {'E': 'VEager', 'N': 'VNoCache', 'L': 'VLazy'}[c['cls']],
-        slit([ord(ch) for ch in (o.get('decl') or '')]), blit(in_domain(c['col'], dec(c['v']))), coq_tables(o['codecs']), obs))
+        slit([ord(ch) for ch in (o.get('decl') or '')]), blit(in_domain(c['col'], dec(c['v']))), blit(kind_ok(c['col'], c['v'])),
+        coq_tables(o['codecs']), obs))
 
 
 # ---------------------------------------------------------------- generators (values are built here, in the parent, and shipped encoded)
@@ -1263,19 +1273,27 @@ def sqlite_keeps_float(o, v):
     return real[0] == 'real' and bits_f(int(real[1])) == v
 
 
+def kind_ok(col, venc):
+    """False on the trigger class of tzinfo_dropped (mirrors Model/Columns.v kind_ok)"""
+    k = venc[0]
+    if col in ('dt', 'ts'):
+        return not (k == 'datetime' and venc[8])
+    if col == 't':
+        return not (k == 'time' and venc[5])
+    return True
+
+
 def classify(c, o, f):
     import datetime
     import decimal
     col, kind = c['col'], c['v'][0]
     fk = f.get('kind')
     v = dec(c['v'])
-    # F1: a date / time object of the wrong kind in a date / time column: stored, then unreadable
-    if fk in ('unreadable', 'raised-after-store', 'query'):
-        if (col in ('dt', 'ts') and kind in ('date', 'time')) or (col == 'd' and kind == 'time') or (col == 't' and kind == 'date'):
-            return 'date_time_kind_unreadable'
-    # F3: tzinfo silently dropped: the writer keeps the aware value, the row the naive text
-    if fk == 'inconsistent' and ((col in ('dt', 'ts') and kind == 'datetime' and c['v'][8]) or (col == 't' and kind == 'time' and c['v'][5])):
-        return 'tzinfo_dropped'
+    # (date_time_kind_unreadable is fixed: a wrong-kind date/time object failing now is a violation)
+    if not kind_ok(col, c['v']):
+        # tzinfo silently dropped: the writer keeps the aware value, the row the naive text
+        if fk == 'inconsistent' and kind in ('datetime', 'time'):
+            return 'tzinfo_dropped'
     # F2: sqlite's text->double mis-rounds the literal of this very float
     if col == 'f' and kind == 'float' and fk in ('changed',) and sqlite_keeps_float(o, v) is False:
         return 'float_literal_misrounded'
@@ -1284,19 +1302,18 @@ def classify(c, o, f):
         z = derived_int(v)
         if z is not None and not (INT64[0] <= z <= INT64[1]):
             return 'int_beyond_int64_stored_as_real'
-    # F5: an int (or a UUID, through __int__) in a FloatCol stays an int in the writer's cache
-    if col == 'f' and kind in ('int', 'uuid') and fk in ('inconsistent', 'query'):
-        z = derived_int(v)
-        if z is not None and abs(z) > 2 ** 53:
-            return 'float_col_keeps_int'
+    # (float_col_keeps_int is fixed: ints are normalised to float by the validator)
     # F6 / F7: DECIMAL columns are NUMERIC affinity on sqlite: REAL or INTEGER storage
     if col in REAL_DEC_COLS:
         d = derived_decimal(v)
         if d is not None and d.is_finite():
-            if fk == 'type' and kind == 'dec' and d == d.to_integral_value():
-                return 'decimal_integral_read_as_int'
-            digits = len(d.normalize().as_tuple().digits)
-            if fk in ('changed', 'inconsistent', 'query') and (digits > 15 or abs(d.adjusted()) > 300):
+            # (decimal_integral_read_as_int is fixed: a type mismatch here is a violation)
+            digits = len(''.join(str(x) for x in d.as_tuple().digits).strip('0'))     # significant digits, exactly
+            beyond = digits > 15 or abs(d.adjusted()) > 300
+            if not beyond and d == d.to_integral_value() and abs(d) >= 2 ** 53:
+                # an integral REAL that fits int64 is turned into INTEGER: the double's exact value shows
+                beyond = decimal.Decimal(float(d)) != d
+            if fk in ('changed', 'inconsistent', 'query') and beyond:
                 return 'decimal_stored_as_real'
     return None
 
